@@ -371,6 +371,9 @@ func checkValue(c Case) error {
 		if err := gen.MutateAt(m, p, splitmix(&seed)); err != nil {
 			return stats.Failf("", "harness: mutate %s at %s: %v", e.Name, p, err)
 		}
+		if reflect.DeepEqual(m.Interface(), v.Interface()) {
+			return stats.Failf("", "harness: mutation of %s at %s is a no-op", e.Name, p)
+		}
 		menc, err, panicked := safeEncode(e, m)
 		if panicked {
 			// the mutated value left the encoder's documented domain (programmer-error panics)
